@@ -302,8 +302,13 @@ class Bus:
             return
         c = rng.choice(al)
         how = rng.choice(["eof", "eof", "rst"])
+        if how == "rst":
+            # a reset socket fails writes at once: keep that out of the fault-free workloads (C11 explores it)
+            self.settle()
         self.note("end", c.name, how)
         S.end(c, how)
+        if how == "rst":
+            self.settle()
 
     def op_misc(self):
         S, rng = self.S, self.rng
